@@ -28,12 +28,12 @@ REQUIRED = ["eval:idc_star", "C08:estimands-evaluated", "C08:estimands-correct",
 TIMEOUT = {"quick": 900, "thorough": 7200}
 
 
-def run_case(ctx, gd, out, cond, cls, g=None):
+def run_case(ctx, gd, out, cond, cls, g=None, cards=None):
     from y0.algorithm.identify import idc_star
     from y0.dsl import Zero
 
     g = gg.to_nx(gd) if g is None else g
-    kernel.LOG.reset_case({"graph": gd, "outcomes": out, "conditions": cond})
+    kernel.LOG.reset_case({"graph": gd, "outcomes": out, "conditions": cond, **({"cards": cards} if cards else {})})
     res = None
     try:
         res = idc_star(g, gev.to_event(out), gev.to_event(cond))
@@ -154,6 +154,16 @@ def run_shard(ctx):
                     run_case(ctx, gd, sp[0], sp[1], sp[2], g=g)
             if len(gd["nodes"]) < 5:
                 gd = gg.edit_inplace(g, gd, rng)
+    # wide graphs: the query lives on a small core, the padding nodes are constants in the exact models
+    for i in range(ctx.share({"quick": 500, "thorough": 6000}[ctx.tier])):
+        core = gg.random_admg(rng, rng.choice([2, 3, 3, 4]))
+        sp = split_event(rng, core)
+        if sp is None:
+            continue
+        total = 64 if i % 12 == 0 else rng.randint(10, 14)
+        gd, pad = gg.embed_wide(core, rng, total, **({"p_di": 0.02, "p_bi": 0.01} if total == 64 else {}))
+        classes["wide:" + sp[2]] = classes.get("wide:" + sp[2], 0) + 1
+        run_case(ctx, gd, sp[0], sp[1], sp[2], cards={w: 1 for w in pad})
     ctx.extras["event_classes"] = classes
 
 
@@ -169,7 +179,7 @@ def replay(case):
     gd = case["graph"]
     gd = {"nodes": gd["nodes"], "di": gd["di"], "bi": gd["bi"]}
     f = lambda ev: [[c[0], [list(w) for w in c[1]], c[2]] for c in ev]  # noqa: E731
-    run_case(_C(), gd, f(case["outcomes"]), f(case["conditions"]), "replay")
+    run_case(_C(), gd, f(case["outcomes"]), f(case["conditions"]), "replay", cards=case.get("cards"))
 
 
 def install_for_suite():
